@@ -174,7 +174,12 @@ def from_sympy(x):
             return ["n", int(v.p), int(v.q)]
         if isinstance(v, sympy.Float):
             inexact[0] = True
-            fr = Fraction(float(v))
+            if v._prec < 53:
+                # a reduced-precision Float (e.g. what round(1/8, 1) returns) denotes the decimal it prints as at its own
+                # precision; float() of its binary mantissa (51/512 for "0.1") is an artefact of the representation
+                fr = Fraction(str(v))
+            else:
+                fr = Fraction(float(v))
             return ["n", fr.numerator, fr.denominator, "float"]
         if isinstance(v, sympy.Symbol):
             return ["s", v.name]
@@ -201,6 +206,9 @@ def from_sympy(x):
             return ["b", "sum" if isinstance(v, sympy.Sum) else "prod", it.name, go(v.function), go(lo), go(hi)]
         if isinstance(v, AppliedUndef):
             return ["f", type(v).__name__, [go(a) for a in v.args]]
+        if isinstance(v, sympy.Heaviside) and len(v.args) == 2 and v.args[1] == sympy.Rational(1, 2):
+            # sympy stores the default value at 0 as a second argument that neither the user wrote nor the printer shows
+            return ["f", "Heaviside", [go(v.args[0])]]
         if isinstance(v, sympy.Function):
             return ["f", type(v).__name__, [go(a) for a in v.args]]
         if isinstance(v, sympy.Basic) and not v.args:
